@@ -2,8 +2,10 @@
 """eval_mut.py <out-dir> [ID ...]: apply each seeded patch to /repo, run the property's quick check, undo.
 Writes /tmp/muteval/<dirname>-<ID>.json"""
 import json, os, subprocess, sys, time, re
+# EVAL_REPO / EVAL_VERIF / EVAL_OUT: evaluate in an isolated copy made by mkws.sh (defaults: the real trees)
+REPO = os.environ.get('EVAL_REPO', '/repo'); VERIF = os.environ.get('EVAL_VERIF', '/verif'); OUT = os.environ.get('EVAL_OUT', '/tmp/muteval')
 out = sys.argv[1]; ids = sys.argv[2:] or sorted(os.listdir(out))
-os.makedirs('/tmp/muteval', exist_ok=True)
+os.makedirs(OUT, exist_ok=True)
 tag = os.path.basename(os.path.dirname(out.rstrip('/')))
 for i in ids:
     d = os.path.join(out, i); p = os.path.join(d, 'patch.diff')
@@ -11,20 +13,20 @@ for i in ids:
     meta = json.load(open(os.path.join(d, 'meta.json'))) if os.path.exists(os.path.join(d, 'meta.json')) else {}
     prop = meta.get('property', i[:3])
     res = {'id': i, 'property': prop}
-    if subprocess.call(['git', '-C', '/repo', 'apply', '--check', p]) != 0:
-        res['error'] = 'patch does not apply'; json.dump(res, open(f'/tmp/muteval/{tag}-{i}.json', 'w')); print(i, 'NOAPPLY'); continue
-    subprocess.check_call(['git', '-C', '/repo', 'apply', p])
+    if subprocess.call(['git', '-C', REPO, 'apply', '--check', p]) != 0:
+        res['error'] = 'patch does not apply'; json.dump(res, open(f'{OUT}/{tag}-{i}.json', 'w')); print(i, 'NOAPPLY'); continue
+    subprocess.check_call(['git', '-C', REPO, 'apply', p])
     try:
         for seed in (os.environ.get('SEEDS', '0').split()):
             t = time.time()
-            r = subprocess.run(['./check', prop, '--tier', 'quick'], cwd='/verif', capture_output=True, text=True, env={**os.environ, 'VERIF_SEED': seed})
+            r = subprocess.run(['./check', prop, '--tier', 'quick'], cwd=VERIF, capture_output=True, text=True, env={**os.environ, 'VERIF_SEED': seed})
             o = r.stdout + r.stderr
             m = re.search(r'failure: property=\S+ signature=(\S+) what=(.{0,300})', o)
             c = re.search(rf'^{prop} quick: (\d+) cases', o, re.M)
             res.setdefault('runs', []).append({'seed': seed, 'rc': r.returncode, 'signature': m.group(1) if m else None, 'what': m.group(2) if m else None, 'cases': int(c.group(1)) if c else None, 'wall_s': round(time.time() - t, 1), 'tail': o[-400:] if r.returncode == 2 else None})
             if r.returncode == 1: break
     finally:
-        subprocess.check_call(['git', '-C', '/repo', 'checkout', '--', '.'])
+        subprocess.check_call(['git', '-C', REPO, 'checkout', '--', '.'])
     res['caught'] = any(x['rc'] == 1 for x in res['runs'])
-    json.dump(res, open(f'/tmp/muteval/{tag}-{i}.json', 'w'), indent=1)
+    json.dump(res, open(f'{OUT}/{tag}-{i}.json', 'w'), indent=1)
     print(i, prop, 'CAUGHT' if res['caught'] else 'MISSED', [(x['rc'], x['signature'], x['cases']) for x in res['runs']])
